@@ -211,6 +211,30 @@ def drain : Nat → Sem × List Waiter → Sem × List Waiter
   | 0, p => p
   | k + 1, p => drain k (round p)
 
+/-! ### Who calls `UpdateSize`: `setupSemaphores` on the process semaphore only -/
+
+def COp.isUpdSize : COp → Bool
+  | .updSize _ => true
+  | _ => false
+
+/-- `int64(x)` of a `uint64` rlimit value (`rlimMax`, `rlimCur`); `RLIM_INFINITY` becomes -1 -/
+def toInt64 (v : Nat) : Int := if v < 2 ^ 63 then (v : Int) else (v : Int) - 2 ^ 64
+
+def startingThreadCount : Int := 45
+
+/-- The calls `setupSemaphores` makes on the process semaphore it creates with
+size `rlimMax`: `Acquire(startingThreadCount)`, then `UpdateSize(rlimCur)` when
+the user's process count cannot be read, else `UpdateFreeUsed(rlimCur - userProcs,
+startingThreadCount)`.  `none`: the guard fails and there is no process semaphore. -/
+def procsSetup (rcur rmax : Nat) (userProcs : Option Int) : Option (Int × List COp) :=
+  if startingThreadCount < toInt64 rmax ∧ startingThreadCount < toInt64 rcur then
+    some (toInt64 rmax,
+      [.acquire 0 startingThreadCount,
+       match userProcs with
+       | none => .updSize (toInt64 rcur)
+       | some u => .updFreeUsed (toInt64 rcur - u) startingThreadCount])
+  else none
+
 /-! ## MaxJobsSemaphore -/
 
 /-- What `metadata.getState()` returns, reduced to what the semaphore looks at. -/
